@@ -808,12 +808,15 @@ pub fn process<I: BufRead, O: Write>(
                             }
                         }
                         _ => {
-                            return Err(Error::Syntax {
-                                filename: filename.clone(),
-                                included_in: included_in.clone(),
-                                line,
-                                msg: "Unrecognised preprocessor directive".to_string(),
-                            });
+                            // (a line of a region that is not selected has no effect)
+                            if state == State::Active {
+                                return Err(Error::Syntax {
+                                    filename: filename.clone(),
+                                    included_in: included_in.clone(),
+                                    line,
+                                    msg: "Unrecognised preprocessor directive".to_string(),
+                                });
+                            }
                         }
                     }
                 } else if state == State::Active {
